@@ -125,10 +125,20 @@ class NPFacade(_Sub):
 _uninit_counter = [0]
 
 
+def _dt(dtype):
+    """The analysed module's `float`/`int` may be shadowed: map the shadows back when used as dtypes."""
+    if dtype is sym_float:
+        return float
+    if dtype is sym_int:
+        return int
+    return dtype
+
+
 def _mk_ctor(name, fill):
     real = getattr(_np, name)
 
     def ctor(shape, dtype=None, *a, **kw):
+        dtype = _dt(dtype)
         if not _sym() or (dtype is not None and dtype not in (float, _np.float64, 'float', 'float64', object)):
             if dtype is None:
                 return real(shape, *a, **kw)
@@ -151,6 +161,7 @@ def _mk_ctor(name, fill):
 
 
 def _full(shape, fill_value, dtype=None, **kw):
+    dtype = _dt(dtype)
     if not _sym():
         return _np.full(shape, fill_value, dtype, **kw)
     out = _np.empty(shape, dtype=object)
@@ -159,6 +170,7 @@ def _full(shape, fill_value, dtype=None, **kw):
 
 
 def _zeros_like(a, dtype=None, **kw):
+    dtype = _dt(dtype)
     if not _sym() or not has_sym(a):
         return _np.zeros_like(a, dtype=dtype, **kw)
     out = _np.empty(_np.shape(a), dtype=object)
@@ -167,6 +179,7 @@ def _zeros_like(a, dtype=None, **kw):
 
 
 def _ones_like(a, dtype=None, **kw):
+    dtype = _dt(dtype)
     if not _sym() or not has_sym(a):
         return _np.ones_like(a, dtype=dtype, **kw)
     out = _np.empty(_np.shape(a), dtype=object)
@@ -175,6 +188,7 @@ def _ones_like(a, dtype=None, **kw):
 
 
 def _empty_like(a, dtype=None, **kw):
+    dtype = _dt(dtype)
     if not _sym() or not has_sym(a):
         return _np.empty_like(a, dtype=dtype, **kw)
     return _mk_ctor('empty', 'uninit')(_np.shape(a))
@@ -184,6 +198,7 @@ def _conv(name):
     real = getattr(_np, name)
 
     def f(x, dtype=None, *a, **kw):
+        dtype = _dt(dtype)
         if _sym() and has_sym(x) and dtype in (float, _np.float64, 'float', None):
             if isinstance(x, _np.ndarray):
                 return x
@@ -196,6 +211,7 @@ def _conv(name):
 
 
 def _array(x, dtype=None, *a, **kw):
+    dtype = _dt(dtype)
     if _sym() and has_sym(x) and dtype in (float, _np.float64, 'float', None):
         kw.pop('copy', None)
         r = _np.array(x, dtype=object, **kw)
